@@ -23,7 +23,7 @@ static u64 diff_dummy[64], reporter_dummy[8];
 static _Bool soname_chg, arch_chg;
 
 /* ---- contract stubs ---- */
-struct class_abigail__comparison__corpus_diff__diff_stats *
+void *
 _ZN7abigail10comparison11corpus_diff47apply_filters_and_suppressions_before_reportingEv(void *d)
 { return (struct class_abigail__comparison__corpus_diff__diff_stats *)&stats; }
 u8 _ZNK7abigail10comparison11corpus_diff14soname_changedEv(void *d) { return soname_chg; }
